@@ -268,11 +268,17 @@ func RuleM7(c *Ctx) {
 					ok = false
 					continue
 				}
-				core.AllInstrs(fn, func(i ssa.Instruction) {
-					if ia, isIA := i.(*ssa.IndexAddr); isIA {
-						idx = ia.Index
+				for _, pb := range path {
+					for _, ins := range pb.Instrs {
+						if ia, isIA := ins.(*ssa.IndexAddr); isIA {
+							idx = ia.Index
+						}
 					}
-				})
+				}
+				if idx == nil {
+					ok = false
+					continue
+				}
 				// resolve the phi along the path
 				if phi, isPhi := core.StripConv(idx).(*ssa.Phi); isPhi {
 					for k, pred := range phi.Block().Preds {
